@@ -36,6 +36,7 @@ const netName gpbft.NetworkName = "verif-c20"
 // certificate generator (vsig stand-in signatures, constant 4-member equal-power table)
 
 type certGen struct {
+	mu sync.Mutex
 	pt    gpbft.PowerEntries
 	supp  gpbft.SupplementalData
 	base  *gpbft.TipSet
@@ -67,6 +68,8 @@ func (g *certGen) key() gpbft.TipSetKey {
 
 // get returns certificate number i (generating up to it).
 func (g *certGen) get(i int) *certs.FinalityCertificate {
+	g.mu.Lock()
+	defer g.mu.Unlock()
 	for len(g.certs) <= i {
 		inst := uint64(len(g.certs))
 		chain, err := gpbft.NewChain(g.base)
